@@ -48,6 +48,14 @@ var c11APICases = []c11Case{
 		patch: "@@\nvar x expression\n@@\n-import \"github.com/pkg/errors\"\n+import \"errors\"\n\n-errors.Errorf(x)\n+errors.New(x)\n",
 		src:   "package p\n\nimport (\n\t\"fmt\"\n\tstderrors \"errors\"\n\n\t\"github.com/pkg/errors\"\n)\n\nfunc f() error {\n\tfmt.Println(stderrors.ErrUnsupported)\n\treturn errors.Errorf(\"x\")\n}\n",
 		gone:  "github.com/pkg/errors", added: "errors", pkg: "errors", keep: []string{"fmt"}, addedUnnamed: true},
+	{name: "context-blank-import",
+		patch: "@@\n@@\n import _ \"embed\"\n\n-var data string\n+var data []byte\n",
+		src:   "package p\n\nimport (\n\t_ \"embed\"\n\t\"fmt\"\n)\n\n//go:embed hello.txt\nvar data string\n\nfunc f() {\n\tlc := 1\n\t_ = lc\n\tfmt.Println(data)\n\tfr.Other()\n}\n",
+		gone:  "embed", pkg: "em", keep: []string{"fmt"}, stays: true},
+	{name: "context-dot-import",
+		patch: "@@\nvar x expression\n@@\n import . \"math\"\n\n-Sqrt(x)\n+Cbrt(x)\n",
+		src:   "package p\n\nimport (\n\t\"fmt\"\n\t. \"math\"\n)\n\nfunc f() {\n\tlc := 1\n\t_ = lc\n\tfmt.Println(Sqrt(1), Abs(2))\n\tfr.Other()\n}\n",
+		gone:  "math", pkg: "ma", keep: []string{"fmt"}, stays: true},
 	{name: "delete-import-shadowing-var",
 		patch: "@@\nvar x expression\n@@\n-import \"errors\"\n\n-errors.New(x)\n+fail(x)\n",
 		src:   "package p\n\nimport (\n\t\"errors\"\n\t\"os\"\n)\n\nfunc f() error {\n\tlclvar := os.Args\n\t_ = lclvar.Len\n\treturn errors.New(\"x\")\n}\n\nvar g = frevar.Is\n",
@@ -147,7 +155,7 @@ func VerifC11API() {
 	}
 	gone := c11Count(st.fout, cs.gone)
 	if cs.stays {
-		nd.Assert(gone == 1, cs.name+": an import the patch matched is still referred to by the rewritten code but was removed (or duplicated)")
+		nd.Assert(gone == 1, cs.name+": an import the patch leaves in place (it is on a context line, or the rewritten code still refers to it) was removed (or duplicated)")
 		for _, k := range cs.keep {
 			nd.Assert(c11Count(st.fout, k) == 1, cs.name+": an import the patch does not mention was added, removed or duplicated: "+k)
 		}
@@ -240,7 +248,7 @@ func ReplayC11API() {
 	gone := c11Count(g, cs.gone)
 	if cs.stays {
 		if gone != 1 {
-			nd.Fail(cs.name + ": an import the patch matched is still referred to by the rewritten code but was removed (or duplicated)")
+			nd.Fail(cs.name + ": an import the patch leaves in place (it is on a context line, or the rewritten code still refers to it) was removed (or duplicated)")
 		}
 		return
 	}
